@@ -39,7 +39,7 @@ CHECKS = {
             "allocating (also with a forced full collection at every allocation), global-assigning, global-defining, collecting and sleeping loops) x {native code generation on, off}; "
             "the bounded variant of each shape runs first so hot code is compiled; then the request is issued at the k-th gate the engine thread passes, for EVERY k in 1..150 "
             "(thorough 1500), whatever gate that is (dispatch, safepoint publish / finished / retract / left, stop / scan / resume of the world); one delayed request from a "
-            "watchdog thread per shape. Oracle: run returns the interrupt error within 64 further instruction dispatches (4 s wall clock = hang); after resume() a probe and the "
+            "watchdog thread per shape, and one request that arrives 8 ms into an evaluation whose unit starts with 600 definitions (still being compiled). Oracle: run returns the interrupt error within 64 further instruction dispatches (4 s wall clock = hang); after resume() a probe and the "
             "bounded variant answer correctly and both VM stacks are empty.",
             "Arrival between two gates is equivalent to arrival at the later gate (the flag is only read at gates). Primitives that run long without script steps are outside the property's bound.",
             "DESIGN.md §3 C17"),
@@ -52,7 +52,7 @@ CHECKS = {
             "Depth 4 (thorough 5); second BFS with a forced full collection at every allocation (hook H4). Boundedness: 16 garbage patterns (acyclic, cycles of length 1..4 "
             "through each container kind and mixed, closure cycles, dead continuation, shadowed global, bounded queue) x {1, 2} threads, full collection and statistics "
             "sample every 500 iterations: slots in use after a collection constant, accounting invariant at every sample, peak slot count of successive growth/compaction "
-            "cycles not rising; thorough adds the natural policy (no explicit collections): the peak slot count after 6*10^7 iterations must not exceed the peak after 3*10^7.",
+            "cycles not rising; host roots: every history of <= 6 (7) events over {make a cyclic object in one of 2 globals, the host roots it with as_rooted, the script drops it, the host releases the root, full collection} plus a drain, slots in use after every collection == baseline + objects reachable from globals and held roots; thorough adds the natural policy (no explicit collections): the peak slot count after 6*10^7 iterations must not exceed the peak after 3*10^7.",
             "Slot cost per kind is calibrated once on the initial state. With a second running thread only a trend can be judged. Weak boxes with reachable targets are C04's subject.",
             "DESIGN.md §3 C19"),
     "C14": ("exploration",
